@@ -743,3 +743,29 @@ func BrkMod() *Mod[cb.Rule] {
 }
 
 var errProbe = fmt.Errorf("probe failure")
+
+var errNoCtrl = fmt.Errorf("the harness-registered generator yields no controller")
+
+// RegisterGenerators registers, once per process, a user generator in each module that has the hook
+// (flow: strategy pair 5/4, hotspot: control behaviour 10, circuit breaker: strategy 9) and sets the
+// modules' GenRule. The generators run GenAct and yield no controller.
+func RegisterGenerators(fm *Mod[flow.Rule], hm *Mod[hotspot.Rule], bm *Mod[cb.Rule]) {
+	if err := flow.VerifSetGenerator(5, 4, func(*flow.Rule) error { RunGenAct(); return errNoCtrl }); err != nil {
+		panic(err)
+	}
+	if err := hotspot.SetTrafficShapingGenerator(10, func(*hotspot.Rule, *hotspot.ParamsMetric) hotspot.TrafficShapingController { RunGenAct(); return nil }); err != nil {
+		panic(err)
+	}
+	if err := cb.SetCircuitBreakerGenerator(9, func(*cb.Rule, interface{}) (cb.CircuitBreaker, error) { RunGenAct(); return nil, errNoCtrl }); err != nil {
+		panic(err)
+	}
+	fm.GenRule = func(res string) *flow.Rule {
+		return &flow.Rule{Resource: res, TokenCalculateStrategy: 5, ControlBehavior: 4, Threshold: 1e9}
+	}
+	hm.GenRule = func(res string) *hotspot.Rule {
+		return &hotspot.Rule{Resource: res, MetricType: hotspot.QPS, ControlBehavior: 10, Threshold: 1e9, DurationInSec: 1}
+	}
+	bm.GenRule = func(res string) *cb.Rule {
+		return &cb.Rule{Resource: res, Strategy: 9, RetryTimeoutMs: 1000, MinRequestAmount: 1, StatIntervalMs: 1000, Threshold: 1}
+	}
+}
